@@ -48,7 +48,9 @@ RULE = (
     "pairs of atoms / versioned CPVs / Revisions rendered from harness field dicts: equivalent spellings (1.0 vs 1.00, "
     "_alpha vs _alpha0, -r0/-r00/none, reordered USE deps, ! vs !!), single-attribute mutations (slot, sub-slot, slot "
     "operator, repo, USE dep, op, version, blocker, negate_vers, category, package) and 10% independent pairs; lists of "
-    "3-6 for sort/set. non-trivial = texts differ and (objects compare equal, or at most two harness-side attributes "
+    "3-6 for sort/set; bounded universes: families of PMS-equal spellings with every numeric position (components, each "
+    "suffix number, revision) written with leading zeros / omitted vs 0, and all key pairs over category and package names "
+    "that are prefixes of one another followed by + - . _ or a digit. non-trivial = texts differ and (objects compare equal, or at most two harness-side attributes "
     "differ); distinct = distinct (kind, text a, text b)"
 )
 ASSUMPTIONS = [
@@ -142,7 +144,7 @@ def check_pair(ctx, objs, kind, fa, fb, record=True):
     case = {"kind": kind, "a": sa, "b": sb}
     if kind == "atom":
         d = G.diff_fields(fa, fb)
-    elif kind == "cpv":
+    elif kind in ("cpv", "ucpv"):
         d = G.cpv_diff(fa, fb)
     else:
         d = [] if fa == fb else (["revspell"] if V_rev_int(fa) == V_rev_int(fb) else ["rev"])
@@ -160,6 +162,11 @@ def check_pair(ctx, objs, kind, fa, fb, record=True):
             cl.append(f"{kind}:equal-but-spelled-differently")
         ctx.case(case, nontrivial=textual and (eq or len(d) <= 2), classes=cl, key=f"{kind}|{sa}|{sb}")
     pair_laws(ctx, kind, label, case, A, B)
+
+
+def _atom_of(f, op):
+    return G.normalise({"blk": "", "op": op, "cat": f["cat"], "pkg": f["pkg"], "ver": f.get("ver"), "rev": f.get("rev"),
+                        "slot": None, "sub": None, "sop": None, "repo": None, "use": None, "nv": False})
 
 
 def V_rev_int(r):
@@ -230,15 +237,18 @@ def check_list(ctx, objs, kind, fs, perm_seed):
 # ---- plan ----------------------------------------------------------------------------------------------------------
 
 def plan(tier, seed):
-    tasks = []
+    # the cheap bounded universes come first: they must run even when a loaded machine hits the budget guard
+    tasks = [{"task": "rev"}, {"task": "names"}]
+    nsp = 2 if tier == "quick" else 8
+    for i in range(nsp):
+        tasks.append({"task": "spell", "slice": i, "nslices": nsp, "depth": 1 if tier == "quick" else 2})
     if tier == "quick":
-        for i in range(6):
-            tasks.append({"task": "grid", "slice": i, "nslices": 6, "sample": 0.04})
         for i in range(3):
-            tasks.append({"task": "cpvgrid", "slice": i, "nslices": 3, "sample": 0.05})
-        for i in range(6):
-            tasks.append({"task": "hyp", "examples": 2000})
-        tasks.append({"task": "rev"})
+            tasks.append({"task": "grid", "slice": i, "nslices": 3, "sample": 0.03})
+        for i in range(2):
+            tasks.append({"task": "cpvgrid", "slice": i, "nslices": 2, "sample": 0.02})
+        for i in range(5):
+            tasks.append({"task": "hyp", "examples": 700})
     else:
         for i in range(32):
             tasks.append({"task": "grid", "slice": i, "nslices": 32, "sample": 1.0})
@@ -246,7 +256,6 @@ def plan(tier, seed):
             tasks.append({"task": "cpvgrid", "slice": i, "nslices": 16, "sample": 1.0})
         for i in range(16):
             tasks.append({"task": "hyp", "examples": 8000})
-        tasks.append({"task": "rev"})
     return tasks
 
 
@@ -307,6 +316,44 @@ def run_task(ctx, task, **kw):
                         pair_laws(ctx, "ucpv", G.diff_label(G.cpv_diff(fa, fb)), case, *built)
         ctx.note("exhaustive_cpv_pairs", bool(full))
         ctx.note("cpv_universe_size", len(U))
+    elif task == "spell":
+        # every numeric position respelled (leading zeros; omitted vs 0 vs 00): first / later components, each
+        # suffix number of a stack, revision -- all ordered pairs inside each family of PMS-equal spellings, as
+        # CPVs (must be equal => equal hashes) and as "=" atoms (unequal => strictly ordered)
+        full = True
+        for n, base in enumerate(G.SPELL_BASES):
+            if n % kw["nslices"] != kw["slice"]:
+                continue
+            if ctx.out_of_time():
+                full = False
+                break
+            fam = G.spelling_family(base, kw["depth"])
+            for va in fam:
+                for vb in fam:
+                    fa = {"cat": "c", "pkg": "p", "ver": va[0], "rev": va[1]}
+                    fb = {"cat": "c", "pkg": "p", "ver": vb[0], "rev": vb[1]}
+                    check_pair(ctx, objs, "cpv", fa, fb)
+                    if va != vb:
+                        check_pair(ctx, objs, "atom", _atom_of(fa, "="), _atom_of(fb, "="))
+        ctx.note("exhaustive_spelling_families", full)
+    elif task == "names":
+        # categories / packages that are prefixes of one another followed by each separator character: all ordered
+        # pairs of keys, as unversioned atoms, versioned atoms, versioned and unversioned CPVs; then sort/set laws
+        keys = [{"cat": c, "pkg": p, "ver": None, "rev": None} for c in G.NAME_CATS for p in G.NAME_PKGS]
+        for fa in keys:
+            for fb in keys:
+                check_pair(ctx, objs, "atom", _atom_of(fa, ""), _atom_of(fb, ""))
+                check_pair(ctx, objs, "atom", _atom_of(dict(fa, ver="1"), ">="), _atom_of(dict(fb, ver="1"), ">="))
+                check_pair(ctx, objs, "cpv", dict(fa, ver="1"), dict(fb, ver="1"))
+                check_pair(ctx, objs, "ucpv", fa, fb)
+        rnd = random.Random(20)  # fixed: only picks which 6-element windows of the finite key list are sorted
+        order = list(keys)
+        rnd.shuffle(order)
+        for i in range(0, len(order) - 5, 2):
+            win = order[i:i + 6]
+            check_list(ctx, objs, "atom", [_atom_of(f, "") for f in win], i)
+            check_list(ctx, objs, "cpv", [dict(f, ver="1") for f in win], i)
+        ctx.note("exhaustive_name_pairs", True)
     elif task == "rev":
         revs = [None, "0", "00", "1", "01", "001", "2", "10", "010", "20"]
         for a in revs:
